@@ -138,21 +138,21 @@ PROPS = {
     },
     'C16': {
         'modules': ['SE.Props.C16', 'SE.Proofs.QueueDriver', 'SE.Gen.TieSync'],
-        'streams': [{'component': 'queue'}, {'component': 'queueblk'}, {'component': 'qconc', 'judge': _qjudge}],
+        'streams': [{'component': 'queue'}, {'component': 'queueblk', 'confirm': True}, {'component': 'qconc', 'judge': _qjudge}],
         'level': 'proof',
         'trusted_base': ["Go runtime semantics of sync.Mutex and channels (a send blocks while the channel is full; the mutex is held across the send) as encoded in the step relation of SE/Model/Queue.lean", "real goroutine schedules are sampled, not enumerated (the theorems quantify over all schedules of the model's atomic steps)"],
         'assumptions': [],
     },
     'C17': {
         'modules': ['SE.Props.C17', 'SE.Gen.TieRelay'],
-        'streams': [{'component': 'relay'}],
+        'streams': [{'component': 'relay', 'confirm': True}],
         'level': 'proof',
         'trusted_base': ["Go `select` picks any ready case; channel/goroutine semantics as encoded in the step relation of SE/Model/Relay.lean", "loopback UDP delivers datagrams intact and in order", "the deterministic stream lets the sender take each line before the next operation (hook VerifPending); other schedules are covered only by the model's theorems"],
         'assumptions': [],
     },
     'C18': {
         'modules': ['SE.Props.C18'],
-        'streams': [{'component': 'frame', 'note_kinds': {'frame'}}, {'component': 'udpq'}],
+        'streams': [{'component': 'frame', 'confirm': True, 'note_kinds': {'frame'}}, {'component': 'udpq', 'confirm': True}],
         'level': 'proof',
         'trusted_base': ["bufio.Reader.ReadLine (4096-byte buffer) modelled from the Go standard library source at the level of buffer + chunks", "the kernel delivers loopback datagrams intact and TCP bytes in order; real TCP segmentation is whatever the kernel does with the generated writes", "goroutine scheduling of reader/processor and concurrent TCP connections are not in the model (partial)"],
         'assumptions': [],
